@@ -36,6 +36,13 @@ def make_problem(rng, N=None, profile=None, n_offsets=None, poly_trend=None, kki
     if n_off:
         dspec["form"] = "list"
         dspec["keys"] = None
+        if n_off <= 3 and rng.random() < 0.3:
+            # a dict whose keys are in sorted order as inserted (surveys are chronological): the code's column assignment
+            # (rank of the key among the sorted keys) is then the identity, exactly as for a list - and the known label defect
+            # cannot occur. Keys are names or integers that are not 0..n-1.
+            pool_ = [["apogee", "lamost", "sdss5", "weave"], [3, 7, 12, 40], ["s1", "s10", "s2", "s3"]][int(rng.integers(0, 3))]
+            dspec["form"] = "dict"
+            dspec["keys"] = sorted(pool_)[:n_off + 1]
     ps = gen.gen_prior_spec(rng, dspec["unit"], n_offsets=n_off, poly_trend=poly_trend if poly_trend is not None
                             else int(rng.choice([1, 2, 3], p=[.6, .3, .1])), kkind=kkind)
     if N is None:
